@@ -165,3 +165,4 @@ M("c05-degenerate-no-widening", "C05", "plot/histogram2d.py", "    if xmin == xm
 M("c03-render-transposed", "C03", "plot/wrappers.py", "    out = ax.pcolormesh(x, y, z, **default_args)", "    out = ax.pcolormesh(x, y, z[::-1, :] if z.shape[0] > 1 and z.shape[0] == z.shape[1] else z, **default_args)", "rendered image flipped vertically for square maps (the returned data are right)")
 M("c03-render-xlim", "C03", "plot/map.py", "        figure[\"ax\"].set_xlim(xmin, xmax)", "        figure[\"ax\"].set_xlim(xmin, xmax * 1.02)", "x axis of the rendered map extends beyond the window")
 M("c05-unfix-nextafter", "C05", "plot/histogram2d.py", "        ymax = max(ymax + 0.05 * dy, np.nextafter(ymax, np.inf))", "        ymax = ymax + 0.05 * dy", "automatic upper y limit can coincide with the largest value for ranges a few ulps wide (the original defect)")
+M("c05-unfix-quantity-limit", "C05", "plot/histogram2d.py", "            limit = limit.to(x.unit).magnitude", "            limit = limit.to(x.unit.units).magnitude", "an explicit limit given as a Quantity raises AttributeError again (the original defect)")
